@@ -9,3 +9,15 @@ Definition char_ok (x : charcase) : bool :=
   && Bool.eqb (xid_start c) (cc_xs x) && Bool.eqb (xid_continue c) (cc_xc x) && in_sigma c.
 Definition char_show (x : charcase) :=
   let c := cc_c x in (is_alphanumeric c, is_uppercase c, to_uppercase c, to_lowercase c, xid_start c, xid_continue c).
+
+(* convert_string called directly *)
+From XSG.Model Require Import Convert.
+Record convcase := CV { cv_word : str; cv_prefix : str; cv_pascal : str; cv_snake : str; cv_valid : str;
+                        cv_nons : str; cv_kw : bool }.
+Definition convert_ok (x : convcase) : bool :=
+  str_eqb (to_pascal_case (cv_word x)) (cv_pascal x) && str_eqb (to_snake_case (cv_word x)) (cv_snake x)
+  && str_eqb (to_valid_key (cv_word x) (cv_prefix x)) (cv_valid x)
+  && str_eqb (remove_namespace (cv_word x)) (cv_nons x) && Bool.eqb (is_keyword (cv_word x)) (cv_kw x).
+Definition convert_show (x : convcase) :=
+  (to_pascal_case (cv_word x), to_snake_case (cv_word x), to_valid_key (cv_word x) (cv_prefix x),
+   remove_namespace (cv_word x), is_keyword (cv_word x)).
